@@ -237,13 +237,16 @@ VF_NOINLINE static void scenario() {
 #define VF_OP 0
 #endif
 #ifndef VF_NSC
-#define VF_NSC 27
+#define VF_NSC 27  // number of scenarios of this instance ...
+#endif
+#ifndef VF_SC0
+#define VF_SC0 0  // ... starting at this one (large scenario sets are split over instances: memory)
 #endif
 // scenario k: digits of k in base VF_DB = (initialSize, delta1, delta2[, delta3]); the grow_by applied to the
 // destination afterwards cycles through 0..VF_DB-1 with k
 #define SC(k)                                                                                         \
   case (k):                                                                                           \
-    if ((k) < VF_NSC)                                                                                 \
+    if ((k) >= VF_SC0 && (k) < VF_SC0 + VF_NSC)                                                                            \
       scenario<VF_MINBUF, (k) % VF_DB, ((k) / VF_DB) % VF_DB, ((k) / (VF_DB * VF_DB)) % VF_DB,          \
                ((k) / (VF_DB * VF_DB * VF_DB)) % VF_DB, ((k) + (k) / VF_DB + 1) % VF_DB, VF_OP>();     \
     break;
@@ -253,13 +256,13 @@ VF_NOINLINE static void scenario() {
 #define SC81(k) SC27(k) SC27((k) + 27) SC27((k) + 54)
 
 extern "C" void vf_main() {
-  uint32_t sel = vf_range_u32(0, VF_NSC - 1);
+  uint32_t sel = vf_range_u32(VF_SC0, VF_SC0 + VF_NSC - 1);
   switch (sel) {
-#if VF_NSC <= 9
+#if VF_SC0 + VF_NSC <= 9
     SC9(0)
-#elif VF_NSC <= 27
+#elif VF_SC0 + VF_NSC <= 27
     SC27(0)
-#elif VF_NSC <= 81
+#elif VF_SC0 + VF_NSC <= 81
     SC81(0)
 #else
     SC81(0) SC81(81) SC81(162)
